@@ -606,7 +606,7 @@ class World:
         p = self.profile
         weights = dict(blob=p["blob"] + p["chunked"], mount=p["mount"], image=p["image"], index=p["index"],
                        artifact=p["artifact"], mread=p["mread"], bread=p["bread"], tags=p["tags"], refs=p["refs"],
-                       mdel=p["mdel"], bdel=p["bdel"], sess=p["sess"], retag=p.get("retag", 0.3))
+                       mdel=p["mdel"], bdel=p["bdel"], sess=p["sess"], retag=p.get("retag", 0.3 if p["image"] > 0 else 0))
         while len(self.steps) < nsteps:
             k = pick(self.rng, weights)
             if k == "blob":
